@@ -36,7 +36,7 @@ func (c cell) String() string {
 func (c cell) key() string { return fmt.Sprintf("%s/%s/%s", c.role, c.cause, c.phase) }
 
 var causes = []string{"peer-eof", "read-error", "write-error", "peer-stops-reading", "client-close", "acceptor-close", "handler-stop", "unroutable-inbound-frame"}
-var phases = []string{"before-logon", "mid-handshake", "established-idle", "inbound-burst", "inbound-stream", "inbound-requests", "resend-batch-in-flight", "outbound-burst", "during-logout"}
+var phases = []string{"before-logon", "mid-handshake", "established-idle", "inbound-burst", "inbound-stream", "inbound-requests", "resend-batch-in-flight", "outbound-burst", "during-logout", "after-logout-exchange"}
 
 func peerCaused(cause string) bool {
 	return cause == "peer-eof" || cause == "read-error" || cause == "write-error" || cause == "peer-stops-reading"
@@ -216,6 +216,14 @@ func runCell(c *vk.Ctx, ce cell, idx int) *outcome {
 			return o
 		}
 		_ = l.S.Logout()
+	case "after-logout-exchange":
+		// the peer logged out and the session answered: connected, not logged on, timers of the ended logon still around
+		if !logon() {
+			return o
+		}
+		fr0, _ := l.Frames()
+		l.Conn.Feed(l.Peer.Logout())
+		l.WaitFrames(2*time.Second, func(fr []rig.Frame) bool { return len(fr) > len(fr0) })
 	}
 	if ce.phase == "inbound-requests" {
 		if ce.offset > 0 {
@@ -309,7 +317,7 @@ func judge(c *vk.Ctx, o *outcome, p1, p2 []rig.GStack) {
 	if (ce.cause == "write-error" || ce.cause == "peer-stops-reading") && len(l.Conn.Writes()) == 0 && ce.role == rig.Acceptor && (ce.phase == "before-logon" || ce.phase == "mid-handshake") {
 		applicable = false
 	}
-	nontrivial := ce.phase == "inbound-stream" || ce.phase == "inbound-requests" || ce.phase == "resend-batch-in-flight" || ce.phase == "established-idle" || ce.phase == "during-logout" || ce.phase == "before-logon" || ce.phase == "mid-handshake" || o.pendingAtFault > 0 || o.blockedSenders > 0
+	nontrivial := ce.phase == "inbound-stream" || ce.phase == "inbound-requests" || ce.phase == "resend-batch-in-flight" || ce.phase == "established-idle" || ce.phase == "during-logout" || ce.phase == "after-logout-exchange" || ce.phase == "before-logon" || ce.phase == "mid-handshake" || o.pendingAtFault > 0 || o.blockedSenders > 0
 	c.Eval(vk.Hash64([]byte(desc)), nontrivial)
 	c.SetAdd("matrix_cells_reached", ce.key())
 	if o.pendingAtFault > 0 {
@@ -379,7 +387,7 @@ func judge(c *vk.Ctx, o *outcome, p1, p2 []rig.GStack) {
 
 func main() {
 	c := vk.Init("C13")
-	c.Rule("fault matrix: role {acceptor, initiator} x cause {peer EOF, read error, write error, peer stops reading (writes stall to the write deadline), Initiator.Close, Acceptor.Close, handler.Stop, a complete inbound frame without MsgType (the handler loop ends with an error), optionally followed by EOF} x phase {before logon, mid-handshake (cut inside the Logon bytes), established idle, inbound burst of 40 messages behind a slow application handler, steady inbound stream at a moderate rate, burst of 40 TestRequests (the handler loop itself is sending replies), a batch of 40 stored messages being retransmitted to a slowly reading peer, outbound burst from 4 sender goroutines, during logout} x handler/conn buffer {0,1,10} x cut position {message boundary, mid-field, inside the CheckSum field} x 3 timing offsets; quick: every (role,cause,phase) once, thorough: the full matrix. Oracle after the settling bound 3 s + 1.1 (N+1) with N=1: net.Conn.Close called; Serve returned; OnDisconnect/OnStopped/EventDisconnect for peer-caused ends; a Session.Send issued 1 s after the end returns within 3 s; senders that were inside Send are released; goroutine profile (debug=1, pprof label per scenario) shows no library-started goroutine in two samples 1 s apart. distinct = matrix cell; non-trivial = hand-offs were pending / senders in flight at fault time (measured) or a non-traffic phase")
+	c.Rule("fault matrix: role {acceptor, initiator} x cause {peer EOF, read error, write error, peer stops reading (writes stall to the write deadline), Initiator.Close, Acceptor.Close, handler.Stop, a complete inbound frame without MsgType (the handler loop ends with an error), optionally followed by EOF} x phase {before logon, mid-handshake (cut inside the Logon bytes), established idle, inbound burst of 40 messages behind a slow application handler, steady inbound stream at a moderate rate, burst of 40 TestRequests (the handler loop itself is sending replies), a batch of 40 stored messages being retransmitted to a slowly reading peer, outbound burst from 4 sender goroutines, during logout, after a completed Logout exchange (connected, not logged on)} x handler/conn buffer {0,1,10} x cut position {message boundary, mid-field, inside the CheckSum field} x 3 timing offsets; quick: every (role,cause,phase) once, thorough: the full matrix. Oracle after the settling bound 3 s + 1.1 (N+1) with N=1: net.Conn.Close called; Serve returned; OnDisconnect/OnStopped/EventDisconnect for peer-caused ends; a Session.Send issued 1 s after the end returns within 3 s; senders that were inside Send are released; goroutine profile (debug=1, pprof label per scenario) shows no library-started goroutine in two samples 1 s apart. distinct = matrix cell; non-trivial = hand-offs were pending / senders in flight at fault time (measured) or a non-traffic phase")
 	c.Assume("settling bound 5.2 s with N=1: the library's timer goroutines notice cancellation only at their next expiry, which is bounded and therefore allowed; the listener's accept loop is exempt until Acceptor.Close")
 	var cells []cell
 	for _, role := range []rig.Role{rig.Acceptor, rig.Initiator} {
@@ -422,7 +430,7 @@ func main() {
 	}
 	can := rig.StartCanary()
 	defer can.Stop()
-	batch := 110
+	batch := 120
 	for start := 0; start < len(mine); start += batch {
 		end := start + batch
 		if end > len(mine) {
